@@ -195,10 +195,12 @@ def tree_scenarios(tier):
 def bool_scenarios(tier):
     if tier == "quick":
         return [("bool:comb:int", 20000, 8192), ("bool:comb:diff", 20000, 2048), ("bool:comb_subject:diff", 20000, 8192), ("bool:grid:union", 2500, 8192),
-                ("bool:needles:int", 30000, 8192), ("bool:needles:diff", 30000, 2048), ("bool:steps:union", 30000, 8192)]
+                ("bool:needles:int", 30000, 8192), ("bool:needles:diff", 30000, 2048), ("bool:steps:union", 30000, 8192),
+                ("bool:hub:union", 30000, 1024), ("bool:hub_right:xor", 30000, 1024)]
     return [("bool:comb:int", 250000, 8192), ("bool:comb:int", 250000, 2048), ("bool:comb:diff", 250000, 2048), ("bool:comb_subject:diff", 250000, 2048),
             ("bool:comb:union", 100000, 8192), ("bool:grid:xor", 40000, 8192), ("bool:stair:int", 1000000, 8192), ("bool:stair:union", 1000000, 2048),
-            ("bool:needles:int", 150000, 8192), ("bool:needles:int", 150000, 2048), ("bool:needles:diff", 300000, 8192), ("bool:steps:union", 250000, 8192), ("bool:steps:xor", 250000, 2048)]
+            ("bool:needles:int", 150000, 8192), ("bool:needles:int", 150000, 2048), ("bool:needles:diff", 300000, 8192), ("bool:steps:union", 250000, 8192), ("bool:steps:xor", 250000, 2048),
+            ("bool:hub:union", 300000, 8192), ("bool:hub:union", 60000, 2048), ("bool:hub_right:xor", 100000, 2048)]
 
 
 def run_c18(tier, seed, t0):
